@@ -21,12 +21,36 @@ func u64(s string) uint64 {
 	return v
 }
 
+// freshEnc: an encoder must hand out a fresh slice every time: scribbling over one result must not change
+// what the next call with the same argument returns (no shared tables / caches behind the encoders)
+func freshEnc(enc func() []byte) bool {
+	a := enc()
+	want := append([]byte{}, a...)
+	for i := range a {
+		a[i] ^= 0xff
+	}
+	b := enc()
+	ok := string(b) == string(want)
+	for i := range a {
+		a[i] ^= 0xff
+	}
+	return ok
+}
+
 func evalC10(op string, args []string) string {
+	r := evalC10Inner(op, args)
+	return r
+}
+
+func evalC10Inner(op string, args []string) string {
 	switch op {
 	case "short":
 		v := u64(args[0])
 		if v > math.MaxUint16 {
 			return "BAD-CASE"
+		}
+		if !freshEnc(func() []byte { return radius.NewShort(uint16(v)) }) {
+			return "encoder-result-shared"
 		}
 		a := radius.NewShort(uint16(v))
 		d, err := radius.Short(a)
@@ -39,6 +63,9 @@ func evalC10(op string, args []string) string {
 		if v > math.MaxUint32 {
 			return "BAD-CASE"
 		}
+		if !freshEnc(func() []byte { return radius.NewInteger(uint32(v)) }) {
+			return "encoder-result-shared"
+		}
 		a := radius.NewInteger(uint32(v))
 		d, err := radius.Integer(a)
 		if err != nil {
@@ -47,6 +74,9 @@ func evalC10(op string, args []string) string {
 		return "ok " + hx(a) + " ok " + strconv.FormatUint(uint64(d), 10)
 	case "integer64":
 		v := u64(args[0])
+		if !freshEnc(func() []byte { return radius.NewInteger64(v) }) {
+			return "encoder-result-shared"
+		}
 		a := radius.NewInteger64(v)
 		d, err := radius.Integer64(a)
 		if err != nil {
@@ -349,6 +379,43 @@ func genC10(g *Gen, tier string, emit func(op string, args ...string)) {
 			ip[k] = 0xff
 		}
 		emit("ipv6prefix", hx(ip), hx(net.CIDRMask(pl, 128)))
+	}
+	// small integers repeatedly (an encoder that caches must still hand out fresh, correct slices)
+	for v := 0; v < 70; v++ {
+		emit("integer", itoa(v))
+		emit("short", itoa(v))
+		emit("integer64", itoa(v))
+	}
+	// every decoder on the OUTPUT of every other encoder (cross-codec confusion, e.g. a v4-mapped
+	// 16-byte address offered to the IPv4 decoder)
+	{
+		var outs [][]byte
+		add := func(a []byte, err error) {
+			if err == nil {
+				outs = append(outs, a)
+			}
+		}
+		for k := 0; k < 6; k++ {
+			ip4 := g.RandBytes(4)
+			add(radius.NewIPAddr(net.IP(ip4)))
+			add(radius.NewIPv6Addr(net.IP(ip4)))
+			add(radius.NewIPv6Addr(net.IP(g.RandBytes(16))))
+			add(radius.NewIFID(net.HardwareAddr(g.RandBytes(8))))
+			add(radius.NewInteger(uint32(g.U64())), nil)
+			add(radius.NewInteger64(g.U64()), nil)
+			add(radius.NewShort(uint16(g.U64())), nil)
+			add(radius.NewDate(time.Unix(int64(g.U64()%4294967296), 0)))
+			add(radius.NewVendorSpecific(uint32(g.U64()), g.RandBytes(g.Range(1, 20))))
+			add(radius.NewTLV(byte(g.Intn(256)), g.RandBytes(g.Range(1, 20))))
+			pl := g.Intn(129)
+			add(radius.NewIPv6Prefix(&net.IPNet{IP: net.IP(g.RandBytes(16)), Mask: net.CIDRMask(pl, 128)}))
+			add(radius.NewBytes(g.RandBytes(g.Intn(20))))
+		}
+		for _, o := range outs {
+			for _, codec := range decoders {
+				emit("dec", codec, hx(o))
+			}
+		}
 	}
 	// every decoder on every length 0..300 and every byte string of <= 2 bytes
 	for _, codec := range decoders {
